@@ -574,8 +574,12 @@ func ruleXZReaderChecks(c *Ctx, r *Report, prefix string) {
 		o := newOb(c, r, rule, fn)
 		mu, mc := roleGetter(c, fBRn), roleGetter(c, fCRn)
 		du, dc := roleFieldLoad(fBHu), roleFieldLoad(fBHc)
+		// V23 applies when the size is declared (`declared >= 0 && measured > declared`); V23-always demands
+		// the test on every return without error
+		o.inContext = true
 		gUu := o.rel("V23-uncompressed-upper", mu, du, token.GTR, "decoded bytes exceed the declared uncompressed size")
 		gCu := o.rel("V23-compressed-upper", mc, dc, token.GTR, "consumed bytes exceed the declared compressed size")
+		o.inContext = false
 		o.inContext = true // V24 applies at the end of the block; V26-clean-eof demands both tests on the clean io.EOF paths
 		gU := o.rel("V24-uncompressed-lower", mu, du, token.LSS, "block ended with fewer decoded bytes than declared")
 		gC := o.rel("V24-compressed-lower", mc, dc, token.LSS, "block ended with fewer consumed bytes than declared")
@@ -670,6 +674,9 @@ func ruleXZReaderChecks(c *Ctx, r *Report, prefix string) {
 				if h.site != nil {
 					c.bindParam = nil
 					c.bindCall(h.site.Call.StaticCallee(), h.site)
+				} else if h.bindSite != nil {
+					c.bindParam = nil
+					c.bindCall(h.bindSite.Call.StaticCallee(), h.bindSite)
 				}
 				k, isK := constInt(h.y)
 				if !isK || k != 0 || !decl(h.x) {
